@@ -6,6 +6,27 @@ use core::convert::TryFrom;
 use core::marker::PhantomData;
 use std::prelude::v1::*;
 
+/// Rebuild a Rust slice from the `{data, len}` pair of a C slice.
+///
+/// Rust requires a non-null pointer even for empty slices, while foreign code commonly
+/// describes "no elements" as `{NULL, 0}`.
+unsafe fn raw_slice<'a, T>(data: *const T, len: usize) -> &'a [T] {
+    if data.is_null() {
+        &[]
+    } else {
+        core::slice::from_raw_parts(data, len)
+    }
+}
+
+/// Mutable counterpart of [`raw_slice`].
+unsafe fn raw_slice_mut<'a, T>(data: *mut T, len: usize) -> &'a mut [T] {
+    if data.is_null() {
+        &mut []
+    } else {
+        core::slice::from_raw_parts_mut(data, len)
+    }
+}
+
 /// Wrapper around const slices.
 ///
 /// This is meant as a safe type to pass across the FFI boundary with similar semantics as regular
@@ -75,7 +96,7 @@ impl<'a, T> CSliceRef<'a, T> {
 
     /// Reinterpret as a Rust slice.
     pub fn as_slice(&'a self) -> &'a [T] {
-        unsafe { core::slice::from_raw_parts(self.data, self.len) }
+        unsafe { raw_slice(self.data, self.len) }
     }
 
     /// Construct from a Rust slice.
@@ -102,7 +123,7 @@ impl<'a> CSliceRef<'a, u8> {
     ///
     /// The slice must be a valid utf-8 string.
     pub unsafe fn into_str(self) -> &'a str {
-        core::str::from_utf8_unchecked(core::slice::from_raw_parts(self.data, self.len))
+        core::str::from_utf8_unchecked(raw_slice(self.data, self.len))
     }
 }
 
@@ -120,7 +141,7 @@ impl<'a, T> From<&'a [T]> for CSliceRef<'a, T> {
 
 impl<'a, T> From<CSliceRef<'a, T>> for &'a [T] {
     fn from(from: CSliceRef<'a, T>) -> Self {
-        unsafe { core::slice::from_raw_parts(from.data, from.len) }
+        unsafe { raw_slice(from.data, from.len) }
     }
 }
 
@@ -128,7 +149,7 @@ impl<'a> TryFrom<CSliceRef<'a, u8>> for &'a str {
     type Error = core::str::Utf8Error;
 
     fn try_from(from: CSliceRef<'a, u8>) -> Result<Self, Self::Error> {
-        core::str::from_utf8(unsafe { core::slice::from_raw_parts(from.data, from.len) })
+        core::str::from_utf8(unsafe { raw_slice(from.data, from.len) })
     }
 }
 
@@ -197,12 +218,12 @@ impl<'a, T> CSliceMut<'a, T> {
 
     /// Reinterpret as a const Rust slice.
     pub fn as_slice(&'a self) -> &'a [T] {
-        unsafe { core::slice::from_raw_parts(self.data, self.len) }
+        unsafe { raw_slice(self.data, self.len) }
     }
 
     /// Reinterpret as a mutable Rust slice.
     pub fn as_slice_mut(&'a mut self) -> &'a mut [T] {
-        unsafe { core::slice::from_raw_parts_mut(self.data, self.len) }
+        unsafe { raw_slice_mut(self.data, self.len) }
     }
 }
 
@@ -213,7 +234,7 @@ impl<'a> CSliceMut<'a, u8> {
     ///
     /// The underlying slice must be a valid utf-8 string.
     pub unsafe fn into_str(self) -> &'a str {
-        core::str::from_utf8_unchecked(core::slice::from_raw_parts(self.data, self.len))
+        core::str::from_utf8_unchecked(raw_slice(self.data, self.len))
     }
 
     /// Convert into mutable utf-8 string
@@ -222,7 +243,7 @@ impl<'a> CSliceMut<'a, u8> {
     ///
     /// The underlying slice must be a valid utf-8 string.
     pub unsafe fn into_mut_str(self) -> &'a mut str {
-        core::str::from_utf8_unchecked_mut(core::slice::from_raw_parts_mut(self.data, self.len))
+        core::str::from_utf8_unchecked_mut(raw_slice_mut(self.data, self.len))
     }
 }
 
@@ -248,7 +269,7 @@ impl<'a> From<&'a mut str> for CSliceMut<'a, u8> {
 
 impl<'a, T> From<CSliceMut<'a, T>> for &'a [T] {
     fn from(from: CSliceMut<'a, T>) -> Self {
-        unsafe { core::slice::from_raw_parts(from.data, from.len) }
+        unsafe { raw_slice(from.data, from.len) }
     }
 }
 
@@ -276,13 +297,13 @@ impl<'a> TryFrom<CSliceMut<'a, u8>> for &'a str {
     type Error = core::str::Utf8Error;
 
     fn try_from(from: CSliceMut<'a, u8>) -> Result<Self, Self::Error> {
-        core::str::from_utf8(unsafe { core::slice::from_raw_parts(from.data, from.len) })
+        core::str::from_utf8(unsafe { raw_slice(from.data, from.len) })
     }
 }
 
 impl<'a, T> From<CSliceMut<'a, T>> for &'a mut [T] {
     fn from(from: CSliceMut<'a, T>) -> Self {
-        unsafe { core::slice::from_raw_parts_mut(from.data, from.len) }
+        unsafe { raw_slice_mut(from.data, from.len) }
     }
 }
 
@@ -290,7 +311,7 @@ impl<'a> TryFrom<CSliceMut<'a, u8>> for &'a mut str {
     type Error = core::str::Utf8Error;
 
     fn try_from(from: CSliceMut<'a, u8>) -> Result<Self, Self::Error> {
-        core::str::from_utf8_mut(unsafe { core::slice::from_raw_parts_mut(from.data, from.len) })
+        core::str::from_utf8_mut(unsafe { raw_slice_mut(from.data, from.len) })
     }
 }
 
@@ -304,6 +325,6 @@ impl<'a, T> core::ops::Deref for CSliceMut<'a, T> {
 
 impl<'a, T> core::ops::DerefMut for CSliceMut<'a, T> {
     fn deref_mut(&mut self) -> &mut Self::Target {
-        unsafe { core::slice::from_raw_parts_mut(self.data, self.len) }
+        unsafe { raw_slice_mut(self.data, self.len) }
     }
 }
